@@ -218,6 +218,13 @@ fn corpus() -> Vec<Edge> {
         edge("serde-rename-not-a-literal", "#[typeshare]\n#[serde(rename = RENAMED)]\npub struct A { #[serde(rename = 5)] pub a: u8 }\n"),
         edge("lifetimes-and-const-generics", "#[typeshare]\npub struct A<'a, T, const N: usize> { pub a: &'a str, pub b: T, pub c: [u8; N] }\n#[typeshare]\n#[serde(tag = \"t\", content = \"c\")]\npub enum E<'a, 'b: 'a, T> { V(&'a str), W { x: &'b T } }\n#[typeshare]\npub type L<'a> = &'a str;\n"),
         edge("where-clauses-and-bounds", "#[typeshare]\npub struct A<T: Clone + Send, U = String> where U: Default { pub a: T, pub b: U }\n"),
+        // names that collapse to one foreign identifier after a backend's normalisation (de-duplication loops)
+        edge("colliding-variant-wire-names", "#[typeshare]\n#[serde(tag = \"t\", content = \"c\")]\npub enum E { #[serde(rename = \"a-b\")] A(u8), #[serde(rename = \"a_b\")] B(u8), #[serde(rename = \"a.b\")] C(u8), #[serde(rename = \"a b\")] D { x: u8 }, #[serde(rename = \"A_B\")] F, #[serde(rename = \"a/b\")] G(String) }\n#[typeshare]\n#[serde(tag = \"t\", content = \"c\")]\npub enum Two { #[serde(rename = \"x-y\")] A(u8), #[serde(rename = \"x_y\")] B(u8) }\n"),
+        edge("case-colliding-variants", "#[typeshare]\n#[serde(tag = \"t\", content = \"c\")]\npub enum E { Id(u8), ID(u8), iD(u8), id(u8), I_D { x: u8 } }\n#[typeshare]\npub enum U { Id, ID, iD, id, I_D }\n"),
+        edge("colliding-unit-variant-wire-names", "#[typeshare]\npub enum U { #[serde(rename = \"a-b\")] A, #[serde(rename = \"a_b\")] B, #[serde(rename = \"a.b\")] C, #[serde(rename = \"a b\")] D, #[serde(rename = \"A_B\")] F }\n"),
+        edge("colliding-field-wire-names", "#[typeshare]\npub struct S { #[serde(rename = \"a-b\")] pub p: u8, #[serde(rename = \"a_b\")] pub q: u8, #[serde(rename = \"a.b\")] pub r: u8, #[serde(rename = \"a b\")] pub s: Option<u8>, #[serde(rename = \"A_B\")] pub t: u8, pub a_b: u8, pub aB: u8 }\n#[typeshare]\n#[serde(tag = \"t\", content = \"c\")]\npub enum E { V { #[serde(rename = \"k-1\")] a: u8, #[serde(rename = \"k_1\")] b: u8, #[serde(rename = \"k.1\")] c: u8 } }\n"),
+        edge("colliding-type-names-after-normalisation", "#[typeshare]\npub struct AccountId { pub a: u8 }\n#[typeshare]\npub struct AccountID { pub b: u8 }\n#[typeshare]\n#[serde(rename = \"Account_Id\")]\npub struct AccountId3 { pub c: u8 }\n#[typeshare]\npub struct Holder { pub x: AccountId, pub y: AccountID, pub z: AccountId3 }\n#[typeshare]\n#[serde(tag = \"t\", content = \"c\")]\npub enum E { Holder { x: u8 }, EHolder(u8), E_Holder { y: u8 } }\n#[typeshare]\npub struct EHolderInner { pub w: u8 }\n"),
+        edge("colliding-generic-parameters-and-consts", "#[typeshare]\npub struct G<T, t, T_> { pub a: T, pub b: t, pub c: T_ }\n#[typeshare]\npub const MY_CONST: u32 = 1;\n#[typeshare]\npub const my_const: u32 = 2;\n#[typeshare]\npub const MyConst: u32 = 3;\n"),
         edge("macro-rules-with-attr", "macro_rules! m { () => { #[typeshare] pub struct InMacro { pub a: u8 } } }\nm!();\n#[typeshare]\npub struct A { pub a: u8 }\n"),
     ];
     // bare `use` of a crate name and odd use trees (multi-file import collection)
